@@ -391,3 +391,41 @@ Proof.
   apply (il_step [] OpExport [] [[]]).
   apply il_done. repeat constructor.
 Qed.
+
+(* ---------- which location counter *)
+
+Lemma cnt_in : forall k l, In k l -> (1 <= cnt k l)%nat.
+Proof.
+  induction l as [|x l IH]; intros H; [destruct H|]. cbn.
+  destruct H as [->|H]; [rewrite key_eqb_refl; lia|]. specialize (IH H). lia.
+Qed.
+
+(* the counter bumped is decided by loc.Mask first: any location with a non-zero mask
+   counts as client-subnet, whatever lookup produced it *)
+Theorem location_counter : forall q mask id0 id1,
+  q_loc q = LocOk mask id0 id1 -> located q = true ->
+  cnt (if 0 <? mask then KLocEcs else id_class id0 id1) (o_incs (serve q)) = 1%nat.
+Proof.
+  intros q mask id0 id1 Hloc Hl.
+  assert (Hle := serve_at_most_once q (if 0 <? mask then KLocEcs else id_class id0 id1)).
+  assert (Hin : In (if 0 <? mask then KLocEcs else id_class id0 id1) (o_incs (serve q))).
+  { change (if 0 <? mask then KLocEcs else id_class id0 id1) with (loc_counter mask id0 id1).
+    destruct q as [rok dobit qt eok pok loc con cst iaerr ns auth dserr dsauth nf rf uok sa werr].
+    unfold located in Hl. cbn in Hloc, Hl. subst loc.
+    destruct rok, eok, pok; try discriminate.
+    unfold serve. cbn [q_reader_ok q_do q_qtype q_edns_ok q_pack_ok q_loc q_cache_on q_cache negb].
+    destruct dobit, con; [destruct cst| |destruct cst|]; cbn; auto 10. }
+  apply cnt_in in Hin. lia.
+Qed.
+
+(* refutation of "the location class counter tells the truth": the default location 0,1
+   found through the resolver map for an IPv4 client carries mask 96 (v4-mapped /0) and
+   is counted as DNS_location.ecs although the query has no client-subnet option *)
+Theorem location_class_refuted :
+  exists q, located q = true /\ q_loc q = LocOk 96 0 1 /\
+            cnt (true_loc_class false 0 1) (o_incs (serve q)) = 0%nat /\
+            cnt KLocEcs (o_incs (serve q)) = 1%nat.
+Proof.
+  exists (mkQ true false 1 true true (LocOk 96 0 1) false CMiss false true true false false 1 true true 1 false).
+  vm_compute. repeat split.
+Qed.
